@@ -14,7 +14,7 @@ import (
 )
 
 // operand values that make groupings distinguishable
-var c10Vals = []string{"0", "1", "2", "3", "-1", "5", "7", "0.5", "10", "null", "true", "false", `""`, `"a"`, "[]", "[1]", `{"a":2,"b":3,"c":5}`, `{"a":{"a":1,"b":2,"c":3},"b":7,"c":0}`, `{"a":null,"b":true,"c":false}`, `[[1,2],[3]]`}
+var c10Vals = []string{`[[1],[2,3]]`, `[0]`, `[[]]`, `[{"a":1},{"a":0}]`, `{"a":[1,2],"b":[[3]]}`, `[null,1]`, "0", "1", "2", "3", "-1", "5", "7", "0.5", "10", "null", "true", "false", `""`, `"a"`, "[]", "[1]", `{"a":2,"b":3,"c":5}`, `{"a":{"a":1,"b":2,"c":3},"b":7,"c":0}`, `{"a":null,"b":true,"c":false}`, `[[1,2],[3]]`}
 
 type spelledOp struct{ op, text string }
 
@@ -39,6 +39,11 @@ func renderWithOps(e ast.Expr, sp map[*ast.Binary]string) string {
 		}
 	case *ast.Unary:
 		if _, ok := e.X.(*ast.Binary); ok {
+			return e.Op + "(" + renderWithOps(e.X, sp) + ")"
+		}
+		if c, ok := e.X.(*ast.Chain); ok && (len(c.Steps) > 0 || c.Head.Kind == ast.HImplicit) {
+			// how a unary operator applies to an unparenthesised multi-step
+			// chain (!a.b) is not pinned by the grammar: always parenthesise
 			return e.Op + "(" + renderWithOps(e.X, sp) + ")"
 		}
 		return e.Op + renderWithOps(e.X, sp)
@@ -75,9 +80,24 @@ func TestC10_Precedence(t *testing.T) {
 				t.Fatalf("HARNESS-BUG: %v", err)
 			}
 			vals[i] = v
-			switch rapid.IntRange(0, 3).Draw(t, "atomkind-"+name) {
+			switch rapid.IntRange(0, 5).Draw(t, "atomkind-"+name) {
 			case 0:
 				atoms[i] = ast.Lit(v)
+			case 1, 2:
+				// an operand that ends in a selector or projection: operators
+				// must still group around the whole operand
+				ms = append(ms, jv.Member{K: name, V: v})
+				st := gen.Pick(t, "trail-"+name, [][]ast.Step{
+					{{Kind: ast.SFlatten}}, {{Kind: ast.SListStar}}, {{Kind: ast.SIndex, Index: 0}}, {{Kind: ast.SIndex, Index: -1}}, {{Kind: ast.SField, Name: "a"}},
+					{{Kind: ast.SSlice, Start: ast.I64(0)}}, {{Kind: ast.SFilter, Cond: ast.Cur()}}, {{Kind: ast.SListStar}, {Kind: ast.SField, Name: "a"}}, {{Kind: ast.SFlatten}, {Kind: ast.SIndex, Index: 0}},
+					{{Kind: ast.SMultiList, Items: []ast.Expr{ast.Cur()}}}, {{Kind: ast.SField, Name: "b"}, {Kind: ast.SFlatten}},
+				})
+				atoms[i] = ast.F(name).With(st...)
+			case 3:
+				ms = append(ms, jv.Member{K: name, V: v})
+				atoms[i] = gen.Pick(t, "wrap-"+name, []ast.Expr{ast.Call("not_null", ast.A(ast.F(name))), ast.Call("to_array", ast.A(ast.F(name))).With(ast.Step{Kind: ast.SFlatten}),
+					&ast.Chain{Head: ast.Head{Kind: ast.HMultiList, Items: []ast.Expr{ast.F(name)}}}, (&ast.Chain{Head: ast.Head{Kind: ast.HMultiList, Items: []ast.Expr{ast.F(name)}}}).With(ast.Step{Kind: ast.SFlatten}),
+					ast.Paren(ast.F(name)), &ast.Chain{Head: ast.Head{Kind: ast.HMultiHash, Keys: []string{"a"}, Items: []ast.Expr{ast.F(name)}}}})
 			default:
 				ms = append(ms, jv.Member{K: name, V: v})
 				atoms[i] = ast.F(name)
